@@ -1,6 +1,6 @@
 (* Entry.v — named entry points: sx case -> sx result.  Used by the extracted
    driver and by the in-kernel replays (vm_compute). *)
-From WD Require Import Base LetterId Wire Protocol Conn Color Matcher MatcherParse Show Session Decode Render Extract Args.
+From WD Require Import Base LetterId Wire Protocol Conn Color Matcher MatcherParse Show Session Decode Render Extract Args Doc.
 
 Definition e_n2l (a : sx) : sx :=
   match a with
@@ -31,11 +31,15 @@ Definition sx_oline (o : oline) : sx :=
 Definition get_event (s : sx) : option event :=
   match s with
   | SL [SS t; SS id; m] =>
-      if str_eqb t (s2l "msg") then option_map (EMsg id) (get_pmsg m) else None
+      if str_eqb t (s2l "msg") then option_map (EMsg id) (get_pmsg m)
+      else if str_eqb t (s2l "smsg") then option_map (ESinkMsg id) (get_pmsg m)
+      else if str_eqb t (s2l "open") then option_map (EOpen id) (get_opt get_b m)
+      else None
   | SL [SS t; SS x] =>
       if str_eqb t (s2l "text") then Some (EText x)
       else if str_eqb t (s2l "cmd") then Some (ECmd x)
       else if str_eqb t (s2l "gdestroy") then Some (EGdbDestroy x)
+      else if str_eqb t (s2l "close") then Some (EClose x)
       else if str_eqb t (s2l "gcmd") then Some (EGdbCmd x)
       else None
   | SL [SS t] => if str_eqb t (s2l "eof") then Some EEof else None
@@ -207,7 +211,7 @@ Definition e_render (a : sx) : sx :=
   match a with
   | SL [d; m] =>
       match get_dialect d, get_wmsg m with
-      | Some d', Some m' => SL [SS (render d' m'); sx_bool (wf_wmsg m'); sx_decoded (denote d' m')]
+      | Some d', Some m' => SL [SS (Render.render d' m'); sx_bool (wf_wmsg m'); sx_decoded (Render.denote d' m')]
       | _, _ => sx_err
       end
   | _ => sx_err
@@ -280,10 +284,30 @@ Definition e_splitcmd (a : sx) : sx :=
   | _ => sx_err
   end.
 
+(* (documented expression, messages) -> wf, texts for 0/1/2 blanks, denotation, what the parsed
+   and simplified text selects (per layout), what simplify (elab e) selects *)
+Definition e_doc (a : sx) : sx :=
+  match a with
+  | SL [e; SL msgs] =>
+      match get_dtop e, get_list get_vmsg msgs with
+      | Some t, Some ms =>
+          let texts := map (fun k => Doc.render k t) [0; 1; 2]%nat in
+          SL [sx_bool (wf_top t);
+              SL (map SS texts);
+              SL (map (fun v => sx_bool (Doc.denote t v)) ms);
+              SL (map (fun tx => sx_res (fun m => SL (map (fun v => sx_bool (matches m (VM v))) ms)) (parse_simplify tx)) texts);
+              SL (map (fun v => sx_bool (matches (simplify (elab t)) (VM v))) ms);
+              SL (map (fun tx => sx_res (fun m => SL [SS (mshow false (simplify m)); SS (mshow false (simplify (elab t)))]) (parse tx)) texts)]
+      | _, _ => sx_err
+      end
+  | _ => sx_err
+  end.
+
 Definition entries (P : pdb) : list (str * (sx -> sx)) :=
   [ (s2l "n2l", e_n2l);
     (s2l "l2n", e_l2n);
     (s2l "mparse", e_mparse);
+    (s2l "doc", e_doc);
     (s2l "argv", e_argv);
     (s2l "splitcmd", e_splitcmd);
     (s2l "extract", e_extract);
